@@ -557,7 +557,30 @@ def rule_r9(ctx):
     ctx.r.floor(rid, n, 2, "dispatch calls in the poll passes")
 
 
-RULES = [rule_r1, rule_r2, rule_r3, rule_r4, rule_r5, rule_r6, rule_r7, rule_r8, rule_r9]
+def rule_r10(ctx, rid="C13.R10"):
+    ctx.r.rule(rid, "no lock is leaked: a lock taken with an explicit acquire() is released on every way out of the acquiring function, exceptional ones included (a send error in the I/O thread's flush must not leave the output lock held: the worker would block forever)")
+    from ..locks import get_locks
+    p = ctx.p
+    lk = get_locks(p)
+    n = 0
+    for f in sorted(p.functions.values(), key=lambda f: f.qual):
+        if not any(isinstance(x, ast.Call) and isinstance(x.func, ast.Attribute) and x.func.attr == "acquire" and lk.table.resolve(f, x.func.value, lk.cg) for x in ast.walk(f.node)):
+            continue
+        n += 1
+        lks = lk.leaks(f)
+        if not lks:
+            ctx.r.ok(rid, "%s releases what it acquires on every exit" % f.qual, f.loc())
+        seen = set()
+        for (lid, kind, node) in lks:
+            if (lid, kind) in seen:
+                continue
+            seen.add((lid, kind))
+            ctx.r.violation(rid, key_of(f, None, "lock-leaked::%s::%s" % (lid, kind)),
+                            "%s can be left by %s with %s still held (acquired at line %s): every later user of the lock blocks forever" % (f.qual, kind, lid, getattr(node.ast, "lineno", "?")), f.loc(node.ast))
+    ctx.r.floor(rid, n, 1, "functions using explicit acquire()")
+
+
+RULES = [rule_r1, rule_r2, rule_r3, rule_r4, rule_r5, rule_r6, rule_r7, rule_r8, rule_r9, rule_r10]
 
 
 from ..selftest import M, T, V  # noqa: E402
